@@ -53,6 +53,7 @@ def main():
     ap.add_argument('--write-patches', action='store_true')
     ap.add_argument('--no-tests', action='store_true')
     ap.add_argument('--keep-replays', default='')
+    ap.add_argument('--ids', default='', help='comma separated exact ids')
     args = ap.parse_args()
     muts = list(MUTANTS)
     seeded = os.path.join(ROOT, 'seeded')
@@ -63,6 +64,9 @@ def main():
                 meta = json.load(open(mf))
                 muts.append(dict(id='seeded/' + d, prop=meta['property'], patch=pf, why=meta.get('needs', '')))
     muts = [m for m in muts if args.k in m['id'] or args.k == m['prop']]
+    if args.ids:
+        want = set(args.ids.split(','))
+        muts = [m for m in muts if m['id'] in want]
     if args.list:
         for m in muts: print(m['id'], m['prop'])
         return
@@ -106,6 +110,8 @@ def main():
     finally:
         shutil.rmtree(scratch, ignore_errors=True)
     path = f"{ROOT}/evidence/selftest.json"
+    import fcntl
+    lk = open(f"{ROOT}/.bin/selftest.lock", 'w'); fcntl.flock(lk, fcntl.LOCK_EX)
     old = {}
     if os.path.exists(path):
         try: old = {x['id']: x for x in json.load(open(path))['results']}
